@@ -4,14 +4,33 @@ From Slsk Require Import C12.Model.
 Open Scope nat_scope.
 
 (* ------------------------------------------------------------------ matching *)
-Lemma fields_impl_spec : forall fs g, fields_impl fs g = fields_spec fs g.
+(* the generated ExpectedResponse.matches against the property text (every expected field value) *)
+Lemma field_body_spec : forall gf f, field_body gf f = if field_ok gf f then RNext else RRet false.
 Proof.
-  induction fs as [|f r IH]; intros g; [reflexivity|].
-  unfold fields_spec in *. simpl. rewrite IH. destruct (field_ok g f); reflexivity.
+  intros gf [n [ov|p]]; unfold field_body, field_ok; cbn.
+  - destruct (optZ_eqb (lookup n gf) ov); reflexivity.
+  - destruct (lookup n gf); [destruct (pred_eval p z)|]; reflexivity.
+Qed.
+
+Lemma fields_loop_spec : forall fs gf, fields_loop fs gf = if fields_spec fs gf then RNext else RRet false.
+Proof.
+  induction fs as [|f r IH]; intros gf; [reflexivity|].
+  unfold fields_spec in *. cbn. rewrite field_body_spec. destruct (field_ok gf f); cbn; auto.
+Qed.
+
+Lemma matches_head_spec : forall m g, matches_head m g = if head_ok m g then RNext else RRet false.
+Proof.
+  intros [c k p fs] [gc gu gk gf gi]. unfold matches_head, head_ok. cbn.
+  destruct (conn_eqb gc c); cbn; [|reflexivity]. destruct (Nat.eqb gk k); cbn; [|reflexivity].
+  destruct p as [p|]; cbn; [|reflexivity]. destruct gc; cbn; try reflexivity.
+  unfold username_neq_peer. destruct (optnat_eqb gu (Some p)); reflexivity.
 Qed.
 
 Lemma matches_is_spec : forall m g, matches m g = matches_spec m g.
-Proof. intros. unfold matches, matches_spec. rewrite fields_impl_spec. reflexivity. Qed.
+Proof.
+  intros. unfold matches, matches_spec. rewrite matches_head_spec. destruct (head_ok m g); cbn; [|reflexivity].
+  rewrite fields_loop_spec. destruct (fields_spec (m_fields m) (g_fields g)); reflexivity.
+Qed.
 
 (* ------------------------------------------------------------------ list plumbing *)
 Lemma run_from_app : forall a b st, run_from st (a ++ b) = run_from (run_from st a) b.
@@ -47,17 +66,28 @@ Inductive estep (g0 : option msg) (c : bool) : entry -> entry -> Prop :=
 Definition ev_msg (ev : event) : option msg := match ev with Message g => Some g | _ => None end.
 Definition cancels (ev : event) (i : nat) : bool := match ev with Cancel j => Nat.eqb j i | _ => false end.
 
+(* with the generated loop body a done future is skipped: the loop is a map and never raises *)
+Definition complete (g : msg) (e : entry) : entry :=
+  if e_in e && is_pending (e_fut e) && matches (e_m e) g then set_fut e (FResult g) else e.
+
+Lemma deliver_map : forall g st, deliver g st = (map (complete g) st, false).
+Proof.
+  induction st as [|e r IH]; [reflexivity|]. cbn [deliver map]. rewrite IH. unfold complete.
+  destruct (e_in e); cbn; [|reflexivity].
+  destruct (e_fut e); cbn; try reflexivity. unfold loop_body. cbn. destruct (matches (e_m e) g); reflexivity.
+Qed.
+
 Lemma deliver_nth : forall g st i e, nth_error st i = Some e ->
-  exists e', nth_error (deliver g st) i = Some e' /\
+  exists e', nth_error (fst (deliver g st)) i = Some e' /\
     (e' = e \/ (e_in e = true /\ matches (e_m e) g = true /\ e_fut e = FPending /\ e' = set_fut e (FResult g))).
 Proof.
-  intros g st i e H. unfold deliver. rewrite nth_error_map, H. simpl. eexists; split; [reflexivity|].
+  intros g st i e H. rewrite deliver_map. cbn [fst]. rewrite nth_error_map, H. simpl. eexists; split; [reflexivity|].
   unfold complete. destruct (e_in e) eqn:I; simpl; auto. destruct (e_fut e) eqn:F; simpl; auto.
   destruct (matches (e_m e) g) eqn:M; auto 10.
 Qed.
 
-Lemma deliver_length : forall g st, length (deliver g st) = length st.
-Proof. intros. apply map_length. Qed.
+Lemma deliver_length : forall g st, length (fst (deliver g st)) = length st.
+Proof. intros. rewrite deliver_map. apply map_length. Qed.
 
 Lemma step_length_ge : forall st ev, length st <= length (fst (step st ev)).
 Proof.
@@ -230,13 +260,13 @@ Qed.
 (* ------------------------------------------------------------------ the completion loop *)
 Lemma deliver_ok : forall g st i e, nth_error st i = Some e ->
   e_in e = true -> e_fut e = FPending -> matches (e_m e) g = true ->
-  nth_error (deliver g st) i = Some (set_fut e (FResult g)).
+  nth_error (fst (deliver g st)) i = Some (set_fut e (FResult g)).
 Proof.
-  intros g st i e H I P M. unfold deliver. rewrite nth_error_map, H. simpl. unfold complete. rewrite I, P, M. reflexivity.
+  intros g st i e H I P M. rewrite deliver_map. cbn [fst]. rewrite nth_error_map, H. simpl. unfold complete. rewrite I, P, M. reflexivity.
 Qed.
 
 Lemma never_raises : forall st ev, snd (step st ev) = false.
-Proof. intros st ev. destruct ev; reflexivity. Qed.
+Proof. intros st ev. destruct ev; try reflexivity. cbn. rewrite deliver_map. reflexivity. Qed.
 
 Lemma raises_all_false : forall es st, Forall (fun b => b = false) (raises_from st es).
 Proof. induction es; intros; simpl; constructor; auto using never_raises. Qed.
